@@ -23,6 +23,8 @@ var c15extLists = [][]string{
 	{".tpl", ".jet"},
 	{"", ".html"},
 	{".jet", ""},
+	{"_tpl", ".jet", "-partial.jet"}, // an extension is whatever follows the name: no dot is implied
+	{"jet", ".jet"},
 }
 var c15entries = []string{"get", "extends", "import", "include", "include-computed-ctx", "include-computed-var", "exec", "includeIfExists", "exec-computed", "import-after-extends"}
 
@@ -117,6 +119,7 @@ type c15case struct {
 	Canary   bool              `json:"canary,omitempty"`
 	// ParseAs: the referring template is not loaded but handed to Set.Parse under this (unclean, possibly relative) name
 	ParseAs string `json:"referrer_parsed_as,omitempty"`
+	Dev     bool   `json:"development_mode,omitempty"`
 }
 
 const c15canaryToken = "CANARY-7731-OUTSIDE-ROOT"
@@ -214,7 +217,13 @@ func c15run(c *fw.Ctx, idx int) {
 			sp = "/" + sp
 		}
 	}
+	if r.Intn(16) == 1 {
+		// white space is an ordinary character of a name: a last segment made of it (or a dot segment followed by it) stays a
+		// segment of its own, it is not trimmed away after the name was cleaned
+		sp = []string{"s/ ", "../a/.. ", "s/\n", "/a/.\u00a0", "/a/b/ ", "s/\t", " ", "/ ", "/a/b/..\t", "s/. "}[r.Intn(10)]
+	}
 	cs.Spelling = sp
+	cs.Dev = idx%4 == 1
 	refBase := cs.RefDir + "ref"
 	refPath := refBase + cs.Exts[0]
 	if cs.Entry != "get" {
@@ -251,7 +260,12 @@ func c15run(c *fw.Ctx, idx int) {
 	}
 	ld := rec.NewLoader(inner)
 	ch := rec.NewCache()
-	set := jet.NewSet(ld, jet.WithCache(ch), jet.WithTemplateNameExtensions(cs.Exts), jx.NoEscape)
+	sopts := []jet.Option{jet.WithCache(ch), jet.WithTemplateNameExtensions(cs.Exts), jx.NoEscape}
+	if cs.Dev {
+		sopts = append(sopts, jet.InDevelopmentMode())
+		c.Count("development_mode_sets", 1)
+	}
+	set := jet.NewSet(ld, sopts...)
 
 	// expectation, from the spelling alone
 	base := c15canon(relBase, sp)
